@@ -4,6 +4,7 @@ import (
 	"fmt"
 	"os"
 	"path/filepath"
+	"sort"
 	"strings"
 
 	"github.com/anz-bank/sysl/pkg/cmdutils"
@@ -71,7 +72,14 @@ func (p *exportCmd) Execute(args cmdutils.ExecuteArgs) error {
 	}
 
 	var writeCount int
-	for appName, syslApp := range args.Modules[0].GetApps() {
+	apps := args.Modules[0].GetApps()
+	appNames := make([]string, 0, len(apps))
+	for appName := range apps {
+		appNames = append(appNames, appName)
+	}
+	sort.Strings(appNames)
+	for _, appName := range appNames {
+		syslApp := apps[appName]
 		if appName == p.appName || p.appName == "" {
 			outputFileName := cmdutils.MakeFormatParser(p.out).LabelApp(appName, "", syslApp.GetAttrs())
 			if err := args.Filesystem.MkdirAll(filepath.Dir(outputFileName), os.ModePerm); err != nil {
